@@ -215,7 +215,14 @@ func (v objectValidator) keyMatchesType(name string, value jbytes.Bytes, visitin
 		return false
 	}
 
-	if node.Type().String() != "string" {
+	// The values of a node with the "any" or the "enum" rule are not bound to the
+	// JSON type of its EXAMPLE (for an alternative of the "or" rule, of the EXAMPLE
+	// the rule is written on): "any" accepts every key, "enum" the keys it lists.
+	if node.Constraint(constraint.AnyConstraintType) != nil {
+		return true
+	}
+
+	if node.Type().String() != "string" && node.Constraint(constraint.EnumConstraintType) == nil {
 		if len(visiting) != 0 {
 			// An alternative of another kind ({or: ["integer", "string"]}) accepts no key.
 			return false
